@@ -319,7 +319,16 @@ func (t *table) evalCons(q amsg, sig []byte) (map[string]string, map[string]inte
 		vs := t.vset.Copy()
 		vs.Proposer = vs.Validators[q.vi-1]
 		mk := func() *types.Proposal { p := t.proposal(q); p.Signature = sig; return p }
+		// a proposal that is malformed BY VALUE (POL round not below its round, more parts than a block can have) is
+		// refused before anybody looks at the signature (setProposal / ValidateBasic, repaired in d00f155 / 2c4d547):
+		// like ValidateBasic on the wire path this is not the property; the raw verification paths still judge it
+		malformed := func(p *types.Proposal) bool {
+			return (p.POLRound != 0 && p.POLRound >= p.Round) || p.POLBlockID.PartsHeader.Total > types.MaxBlockPartsCount
+		}
 		run("sp", func() string {
+			if malformed(mk()) {
+				return "basic"
+			}
 			set, err := consensus.VerifSetProposalBare(chain, t.h[q.h], t.r[q.r], vs, mk())
 			return yes(set && err == nil)
 		})
@@ -331,7 +340,7 @@ func (t *table) evalCons(q amsg, sig []byte) (map[string]string, map[string]inte
 		})
 		run("wi", func() string {
 			p2, err := wireProposal(mk())
-			if err != nil {
+			if err != nil || malformed(p2) {
 				return "basic"
 			}
 			set, err := consensus.VerifSetProposalBare(chain, t.h[q.h], t.r[q.r], vs, p2)
@@ -484,7 +493,13 @@ func judgeCons(tb *table, l *consLine, rng *rand.Rand, twin func(string)) (fs []
 				}
 				continue
 			}
+			if real == "basic" && q.typ == "proposal" && path == "sp" {
+				continue // malformed by value, see evalCons
+			}
 			core := exp
+			if path == "wi" && real == "basic" && q.typ == "proposal" {
+				continue
+			}
 			if path == "wi" && exp == "basic" {
 				// ValidateBasic is not the property: if the real decoder lets the message through, the
 				// signature verdict must still be the specified one
